@@ -1295,6 +1295,59 @@ def gen_cross(rng, n):
     return out
 
 
+# ---------------------------------------------------------------- failing updates, systematically (C04 C05 C06 C12 C15)
+def gen_fail(rng, obs="full", part=None):
+    """every mutator x key type x way of failing (sequence number at its maximum, signer fault, a signer the record's
+    other key entry shadows, size), with the record's own key and with another one; the record is observed before,
+    compared with a clone afterwards, observed again, and then updated successfully once more.
+    part = (i, n): only every n-th combination starting at i (quick tier)."""
+    sid = Sid("fail")
+    U64MAX = [255] * 8
+    calls = list(ALL_SIMPLE_CALLS) + [
+        ("set_seq", lambda rng: {"seq": [5]}), ("set_seq", lambda rng: {"seq": []}), ("set_seq", lambda rng: {"seq": [255] * 8}),
+        ("insert", lambda rng: {"key": B("big"), "val": {"ty": "bytes", "v": [3] * 120}}),
+        ("insert_raw_rlp", lambda rng: {"key": B("tcp"), "raw": [0x82, 0x00, 0x50]}),          # ill-typed reserved value
+        ("remove_insert", lambda rng: {"remove": [B("udp")], "insert": [[B("aa"), [1]], [B("tcp6"), [0, 1, 2]]]}),   # valid pair, then an ill-typed one
+        ("remove_key", lambda rng: {"key": B("id")}),
+        ("set_client_info", lambda rng: {"name": B("n"), "version": B("v"), "build": [[]]}),
+    ]
+    combos = []
+    for kt, own in [("k256", "k1"), ("libsecp", "k2"), ("ed", "e1"), ("comb", "k1"), ("comb", "e1"), ("wk256", "k1"), ("wed", "e2"), ("wcomb", "k4"), ("wcomb", "e1")]:
+        others = [x for x in signers_for(kt) if x != own]
+        same = [x for x in others if scheme_of(x) == scheme_of(own)][0]
+        cross = [x for x in others if scheme_of(x) != scheme_of(own)][:1]
+        modes = [("seqmax", own), ("seqmax", same), ("size", own), ("size", same)]
+        modes += [("seqmax", c) for c in cross] + [("shadow", c) for c in cross] + [("size", c) for c in cross]
+        if kt.startswith("w"):
+            modes += [("fault", own), ("fault", same)] + [("fault", c) for c in cross]
+        for mode, signer in modes:
+            for ci in range(len(calls)):
+                combos.append((kt, own, mode, signer, ci))
+    if part is not None:
+        combos = [c for j, c in enumerate(combos) if (j + j // len(calls)) % part[1] == part[0] % part[1]]
+    out = []
+    for kt, own, mode, signer, ci in combos:
+        m, mk = calls[ci]
+        a = mk(rng)
+        if a.get("pk_of") == "OWN":
+            a["pk_of"] = signer
+        base = [[B("id"), enc_str(B("v4"))], [B(pk_key(own)), enc_str(KEYS[own]["pk"])], [B("ip"), enc_str([10, 0, 0, 9])],
+                [B("udp"), enc_uint(1)], [B("tcp"), enc_uint(65535)]]
+        seq = U64MAX if mode == "seqmax" else [rng.choice([1, 127, 255])]
+        if mode == "size":
+            base = pad_to(rng, seq, sorted(base, key=lambda p: bytes(p[0])), rng.choice([298, 299, 300]), key="zpad") or base
+        pairs = sorted(base, key=lambda p: bytes(p[0]))
+        call = {"op": "call", "h": "r", "m": m, "args": a, "signer": signer, "obs": obs}
+        if mode == "fault":
+            call["fault"] = 1
+        steps = [{"op": "decode", "h": "r", "kt": kt, "input": {"rec": {"seq": seq, "pairs": pairs, "sig": {"by": own}}}, "tag": "fail_" + mode, "obs": obs},
+                 {"op": "clone", "h": "c", "from": "r"}, call, {"op": "compare", "a": "r", "b": "c"},
+                 {"op": "call", "h": "r", "m": "set_seq", "args": {"seq": [9]}, "signer": own, "obs": obs},
+                 {"op": "call", "h": "r", "m": "set_udp4", "args": {"port": 7}, "signer": own, "obs": obs}]
+        out.append({"sid": sid(), "steps": steps})
+    return out
+
+
 # ---------------------------------------------------------------- C10: node ids of edge-case keys
 def gen_nid(rng, n_random):
     sid = Sid("nid")
